@@ -98,6 +98,27 @@ def observe(c):
         pass
     del CAPPED[n0:]
     runs.append(["after_sibling_simulation", _drive(engine_build.engine(kind), script)[1], True])
+    # after a geometric sibling on the SAME engine object: the same cells and the same list of edges, other surfaces, distances and
+    # volumes within a factor of eight, so that the time step still suits (whatever the wrapper keeps between set-ups keyed on the topology alone would survive into the next run)
+    geo = copy.deepcopy(c)
+    gsp = geo["desc"]["space"]
+    scale = lambda q: ({"bare": q["bare"] * rng.choice([0.25, 0.5, 2.0, 8.0])} if "bare" in q else
+                       {"v": q["v"] * rng.choice([0.25, 0.5, 2.0, 8.0]), "sys": list(q["sys"])})
+    if gsp["type"] == "graph":
+        for e_ in gsp["edges"]:
+            e_["surface"], e_["distance"] = scale(e_["surface"]), scale(e_["distance"])
+        for n_ in gsp["nodes"]:
+            n_["vol"] = scale(n_["vol"])
+    else:
+        gsp["vol"] = scale(gsp["vol"])
+    geo["seed"] = rng.randrange(2 ** 31)
+    n0 = len(CAPPED)
+    try:
+        _drive(e1, trajgen.build_script(strengths, geo), max_iter=300)
+    except Exception:
+        pass
+    del CAPPED[n0:]
+    runs.append(["after_geometric_sibling_on_the_same_object", _drive(e1, script)[1], True])
     # the same run asked for through simulate(): every script property handed over as a keyword argument (the reference completed
     # within the harness's cap, so this loop ends too)
     if not CAPPED:
